@@ -264,6 +264,7 @@ func init() {
 			e.errors = append(e.errors, "function fillSliceWithDefault not found")
 			e.stringList("defaultCacheUse", "MISSING", []string{"MISSING"})
 		}
+		e.shapeDef(s, ut, "implicitValueRequiredStruct", "structRequiredShape")
 		// rest/httpx.Parse end to end
 		e.shapeDef(s, "rest/httpx/requests.go", "Parse", "httpParseShape")
 		e.shapeDef(s, "rest/httpx/util.go", "GetFormValues", "getFormValuesShape")
